@@ -101,4 +101,33 @@ def sortIdx (l : List IdxE) : List IdxE := l.foldl (fun acc e => idxInsert e acc
 def expectedPass (rows : List (Key × Row)) (slot uid : Nat) : List IdxE :=
   sortIdx ((rows.filter fun kr => decide (kr.1.slot = slot) && decide (kr.1.uid = uid)).map fun kr => entry kr.1 kr.2)
 
+/-! ### histories -/
+
+/-- one command of a history: a Shard-level operation or one metadata Batch -/
+inductive Cmd
+  | one (o : Op)
+  | batch (os : List Op)
+
+def exec (st : St) : Cmd → St
+  | .one o => (step st o).1
+  | .batch os => (batchStep st os).1
+
+def run (st : St) (h : List Cmd) : St := h.foldl exec st
+
+/-- shape of the rows the callers build, relative to the channel's committed tail `t`
+    (pkg/cluster/node_meta.go groupUserChannelMembershipsByHashSlot,
+    internal/runtime/persondirectory projectedMembership, internal/usecase/conversation):
+    live join rows carry `ReadSeq = DeletedToSeq = t`, user mutations stay at or below `t`,
+    rows are never deleted. -/
+def shaped (t : Nat) : Op → Prop
+  | .up _ nx => nx.read ≤ t ∧ nx.del ≤ t ∧ (nx.tomb = false → nx.read = t ∧ nx.del = t)
+  | .en _ nx => nx.read = t ∧ nx.del = t
+  | .rd _ v _ => v ≤ t
+  | .hd _ v _ => v ≤ t
+  | .dl _ => False
+  | _ => True
+
+/-- the `CursorBelowTail` invariant of DESIGN §8.3 -/
+def below (t : Nat) (r : Option Row) : Prop := ∀ a, r = some a → a.read ≤ t ∧ a.del ≤ t
+
 end WK.C16
